@@ -300,3 +300,7 @@ Definition name_ok (n : bytes) : Prop := n = [] \/ valid_name n = true.
 (* records that cannot (re-)introduce a name: everything except IN_MOVED_TO and IN_CREATE|IN_ISDIR *)
 Definition quiet (e : kraw) : Prop :=
   name_ok (k_name e) /\ is_moved_to (k_mask e) = false /\ is_directory (k_mask e) && is_create (k_mask e) = false.
+
+(* a record that is quiet, or arrives on a descriptor that state [r0] does not know (it is dropped) *)
+Definition quiet_or_unknown (r0 : rstate) (e : kraw) : Prop :=
+  quiet e \/ alookup N.eqb (k_wd e) (pfw r0) = None.
